@@ -8,7 +8,7 @@ from vlib.shim import SAN_ENV
 
 ID = "C07"
 LEVEL = "exploration"
-CONFIGS = {"quick": ["san"], "thorough": ["san", "san_nv", "mx_i64"]}
+CONFIGS = {"quick": ["san", "san_nv"], "thorough": ["san", "san_nv", "mx_i64"]}
 EXTRA_BUILDS = []
 RULE = ("every parsing / verification entry point (public keys, x-only keys, DER / compact / recoverable signatures, Schnorr and half-aggregate verification, MuSig "
         "nonces / partial signatures / sessions, adaptor signatures, sign-to-contract openings, commitments, generators, tallies, range proofs (info / verify / "
